@@ -113,7 +113,9 @@ pub fn run_prop(ctx: &Ctx, sink: &mut Sink) {
         toks.push("delete".into());
         let before = snapshot(&sc.dir);
         let mut args: Vec<String> = vec![];
-        if flag != "P" { args.push(format!("-{flag}")); }
+        // (among several of -H -L -P the last one decides)
+        if flag == "P" && rng.chance(1, 3) { args.push((*rng.pick(&["-L", "-H"])).to_string()); args.push("-P".into()); }
+        if flag != "P" { if rng.chance(1, 4) { args.push("-P".into()); } args.push(format!("-{flag}")); }
         for (sp, _) in &roots { args.push(String::from_utf8(sp.clone()).unwrap()); }
         args.extend(argv_of(&toks, &mut rng));
         let o = find_inproc(&ctx.tmp.join("stderr-find"), &args, std::time::SystemTime::now(), Some(&sc.dir));
